@@ -105,6 +105,20 @@ func KV(kv ...string) []*types.KeyValue {
 	return l
 }
 
+// Scribble overwrites the key and value buffers of a write list in place: the caller of the store
+// owns them again once the call has returned (requests arrive in recycled messages), so a store
+// that kept references instead of copies reads garbage afterwards.
+func Scribble(kv []*types.KeyValue) {
+	for _, p := range kv {
+		for i := range p.Key {
+			p.Key[i] = 0xEE
+		}
+		for i := range p.Value {
+			p.Value[i] = 0xEE
+		}
+	}
+}
+
 // Get reads keys at a root through Store.Get.
 func Get(st *mavl.Store, root []byte, keys []string) [][]byte {
 	var ks [][]byte
